@@ -555,9 +555,9 @@ def mutates(cur, init):
 
 def get_attr(obj, name):
     if obj[0] == 'obj':
-        for k, v in obj[2]:
-            if k == name:
-                return v
+        for a in obj[2]:
+            if a[1] == name:
+                return a[2]
         return get_attr(obj[1], name)
     if obj[0] == 'ite':
         a, b = get_attr(obj[2], name), get_attr(obj[3], name)
@@ -567,10 +567,23 @@ def get_attr(obj, name):
 
 def set_attr(obj, name, val):
     if obj[0] == 'obj':
-        d = dict(obj[2])
+        d = {a[1]: a[2] for a in obj[2]}
         d[name] = val
-        return ('obj', obj[1], tuple(sorted(d.items(), key=lambda kv: kv[0])))
-    return ('obj', obj, ((name, val),))
+        return ('obj', obj[1], tuple(('at', k, d[k]) for k in sorted(d)))
+    return ('obj', obj, (('at', name, val),))
+
+
+def mk_obj(base, attrs):
+    return ('obj', base, tuple(('at', k, attrs[k]) for k in sorted(attrs)))
+
+
+def obj_attrs(t):
+    return {a[1]: a[2] for a in t[2]} if t[0] == 'obj' else {}
+
+
+def kwargs_of(t):
+    """keyword arguments of a call term as a dict"""
+    return {k[1]: k[2] for k in t[3]} if t[0] == 'call' else {}
 
 
 # ---------------------------------------------------------------------------
@@ -882,10 +895,10 @@ class PE:
         kw = []
         for k in n.keywords:
             if k.arg is None:
-                kw.append(('**', self.ev(k.value, env)))
+                kw.append(('kw', '**', self.ev(k.value, env)))
             else:
-                kw.append((k.arg, self.ev(k.value, env)))
-        kw = tuple(sorted(kw, key=lambda x: x[0]))
+                kw.append(('kw', k.arg, self.ev(k.value, env)))
+        kw = tuple(sorted(kw, key=lambda x: x[1]))
         return self.call(f, args, kw, env, n)
 
     def is_place(self, n):
@@ -959,7 +972,7 @@ class PE:
         sub = PE(self.resolve_global, self.global_values, self.unroll, self.opts, self.inline, self.call_hook)
         sub.lam_depth = self.lam_depth + 10
         try:
-            sm = sub.run_function(fdef, args=list(args), kwargs=dict(kw))
+            sm = sub.run_function(fdef, args=list(args), kwargs={k[1]: k[2] for k in kw})
         except Unsupported:
             return None
         effs = sm.effects
@@ -1129,8 +1142,8 @@ class PE:
         for name, init in self.roots.items():
             cur = env.get(name, init)
             if cur != init and mutates(cur, init):
-                out.append((name, cur))
-        return tuple(sorted(out, key=lambda x: x[0]))
+                out.append(('root', name, cur))
+        return tuple(sorted(out, key=lambda x: x[1]))
 
     def exec_stmt(self, s, env, effects, rest):
         self.cur_effects = effects
@@ -1593,7 +1606,7 @@ def substitute(t, sub, opts=None):
         elif tag == 'attr':
             out = get_attr(rec(t[1]), t[2])
         elif tag == 'call':
-            out = ('call', rec(t[1]), tuple(rec(x) for x in t[2]), tuple((k, rec(v)) for k, v in t[3]))
+            out = ('call', rec(t[1]), tuple(rec(x) for x in t[2]), tuple(('kw', k[1], rec(k[2])) for k in t[3]))
         else:
             out = tuple(rec(x) if type(x) is tuple else x for x in t)
         memo[k] = (t, out)
@@ -1660,7 +1673,7 @@ def _show(t, d=0):
     if tag == 'attr':
         return '%s.%s' % (_show(t[1], d + 1), t[2])
     if tag == 'call':
-        a = [_show(x, d + 1) for x in t[2]] + ['%s=%s' % (k, _show(v, d + 1)) for k, v in t[3]]
+        a = [_show(x, d + 1) for x in t[2]] + ['%s=%s' % (k[1], _show(k[2], d + 1)) for k in t[3]]
         return '%s(%s)' % (_show(t[1], d + 1), ', '.join(a))
     if tag in ('list', 'tuple', 'set'):
         o, c = {'list': '[]', 'tuple': '()', 'set': '{}'}[tag]
@@ -1673,7 +1686,7 @@ def _show(t, d=0):
     if tag == 'range':
         return 'range(%s, %s, %s)' % tuple(_show(x, d + 1) for x in t[1:4])
     if tag == 'obj':
-        return '%s{%s}' % (_show(t[1], d + 1), ', '.join('%s=%s' % (k, _show(v, d + 1)) for k, v in t[2]))
+        return '%s{%s}' % (_show(t[1], d + 1), ', '.join('%s=%s' % (a[1], _show(a[2], d + 1)) for a in t[2]))
     if tag == 'upd':
         return '%s{%s}' % (_show(t[1], d + 1), ', '.join('[%s]=%s' % (_show(k, d + 1), _show(v, d + 1)) for k, v in t[2]))
     if tag == 'lam':
